@@ -21,6 +21,7 @@ import (
 // ---------------------------------------------------------------------------------------
 
 func init() {
+	register("R-NAMESET", "the tests of strings against codec names (variant selection) are those of bitstream format 6", false, ruleNameSet)
 	register("R-WIRE", "every curated wire constant, constant-table digest and header/hash call-site constant of bitstream format 6 still has its frozen value", false, ruleWire)
 }
 
@@ -56,7 +57,21 @@ type wireCmp struct {
 	Ops  map[string]int `json:"ops"` // normalised with the constant on the right-hand side
 }
 
+type wireNameTest struct {
+	Pkg   string `json:"pkg"`
+	Kind  string `json:"kind"` // cmp | cmp-fold | contains | prefix | suffix | index
+	Value string `json:"value"`
+	Count int    `json:"count"`
+}
+
+type wireKernel struct {
+	Fn      string            `json:"fn"` // printable name of the function
+	Entries []wireCensusEntry `json:"entries"`
+}
+
 type wireSpec struct {
+	NameTests []wireNameTest `json:"name_tests"`
+	Kernels   []wireKernel   `json:"kernels"`
 	Cmps      []wireCmp    `json:"cmps"`
 	Comment   string       `json:"comment"`
 	Constants []wireConst  `json:"constants"`
@@ -400,6 +415,27 @@ func genWireSpec(p *Prog) *wireSpec {
 		}
 		spec.Constants = append(spec.Constants, wc)
 	}
+	nt := nameTests(p, codecNames(p))
+	var ntk [][3]string
+	for k := range nt {
+		ntk = append(ntk, k)
+	}
+	sort.Slice(ntk, func(i, j int) bool { return ntk[i][0]+ntk[i][1]+ntk[i][2] < ntk[j][0]+ntk[j][1]+ntk[j][2] })
+	for _, k := range ntk {
+		spec.NameTests = append(spec.NameTests, wireNameTest{k[0], k[1], k[2], nt[k]})
+	}
+	for _, f := range kernelFunctions(p) {
+		m := kernelCensus(f)
+		if len(m) == 0 {
+			continue
+		}
+		var es []wireCensusEntry
+		for k, n := range m {
+			es = append(es, wireCensusEntry{k[0], k[1], n})
+		}
+		sort.Slice(es, func(i, j int) bool { return es[i].Op+es[i].Value < es[j].Op+es[j].Value })
+		spec.Kernels = append(spec.Kernels, wireKernel{p.FnName(f), es})
+	}
 	cmps := constComparisons(p)
 	for _, wc := range spec.Constants {
 		if m := cmps[wc.Pkg+"."+wc.Name]; len(m) > 0 {
@@ -502,6 +538,134 @@ func constComparisons(p *Prog) map[string]map[string]int {
 	return out
 }
 
+// nameTests counts, per library package, the tests of a string against a constant that is one of `names`
+// (comparisons incl. switch cases and keys of map literals; strings.EqualFold; Contains/HasPrefix/HasSuffix/Index).
+func nameTests(p *Prog, names map[string]bool) map[[3]string]int {
+	out := map[[3]string]int{}
+	for _, f := range p.ModFns {
+		rel := p.Rel(f)
+		if !isLibRel(rel) {
+			continue
+		}
+		eachInstr(f, func(i ssa.Instruction) {
+			switch x := i.(type) {
+			case *ssa.BinOp:
+				if x.Op != token.EQL && x.Op != token.NEQ {
+					return
+				}
+				for _, o := range []ssa.Value{x.X, x.Y} {
+					if c, ok := o.(*ssa.Const); ok && c.Value != nil && c.Value.Kind() == constant.String && names[constant.StringVal(c.Value)] {
+						out[[3]string{rel, "cmp", constant.StringVal(c.Value)}]++
+					}
+				}
+			case *ssa.Call:
+				o := calleeObj(&x.Call)
+				if o == nil || o.Pkg() == nil || o.Pkg().Path() != "strings" {
+					return
+				}
+				kind := map[string]string{"EqualFold": "cmp-fold", "Contains": "contains", "HasPrefix": "prefix", "HasSuffix": "suffix", "Index": "index", "Compare": "cmp"}[o.Name()]
+				if kind == "" {
+					return
+				}
+				for _, a := range x.Call.Args {
+					if c, ok := a.(*ssa.Const); ok && c.Value != nil && c.Value.Kind() == constant.String && names[constant.StringVal(c.Value)] {
+						out[[3]string{rel, kind, constant.StringVal(c.Value)}]++
+					}
+				}
+			}
+		})
+	}
+	// keys of package-level map literals (table-driven form of a switch)
+	for _, pk := range p.Pkgs {
+		rel := strings.TrimPrefix(strings.TrimPrefix(pk.PkgPath, p.ModPath), "/")
+		if !isLibRel(rel) {
+			continue
+		}
+		for _, file := range pk.Syntax {
+			if strings.HasSuffix(p.Fset.Position(file.Pos()).Filename, "_test.go") {
+				continue
+			}
+			ast.Inspect(file, func(n ast.Node) bool {
+				cl, ok := n.(*ast.CompositeLit)
+				if !ok {
+					return true
+				}
+				tv, ok := pk.TypesInfo.Types[cl]
+				if !ok {
+					return true
+				}
+				if _, isMap := tv.Type.Underlying().(*types.Map); !isMap {
+					return true
+				}
+				for _, el := range cl.Elts {
+					if kv, ok := el.(*ast.KeyValueExpr); ok {
+						if ktv, ok := pk.TypesInfo.Types[kv.Key]; ok && ktv.Value != nil && ktv.Value.Kind() == constant.String && names[constant.StringVal(ktv.Value)] {
+							out[[3]string{rel, "cmp", constant.StringVal(ktv.Value)}]++
+						}
+					}
+				}
+				return true
+			})
+		}
+	}
+	return out
+}
+
+// codecNames: the names of the format's codecs (from the name tables of the tree under analysis).
+func codecNames(p *Prog) map[string]bool {
+	out := map[string]bool{}
+	for _, kind := range []string{"transform", "entropy"} {
+		ct := loadTables(p, kind)
+		for n := range ct.n2c {
+			out[n] = true
+		}
+	}
+	return out
+}
+
+// kernelCensus: literal shift / mask / multiplier constants of one function (no look-through into callees).
+func kernelCensus(f *ssa.Function) map[[2]string]int {
+	out := map[[2]string]int{}
+	eachInstr(f, func(i ssa.Instruction) {
+		x, ok := i.(*ssa.BinOp)
+		if !ok {
+			return
+		}
+		var min int64
+		switch x.Op {
+		case token.SHR, token.SHL:
+			min = 5
+		case token.AND, token.MUL, token.XOR, token.OR:
+			min = 16
+		default:
+			return
+		}
+		for _, o := range []ssa.Value{x.X, x.Y} {
+			if c, ok := o.(*ssa.Const); ok && c.Value != nil && c.Value.Kind() == constant.Int {
+				if v, exact := constant.Int64Val(c.Value); exact && v > -min && v < min {
+					continue
+				}
+				out[[2]string{x.Op.String(), c.Value.ExactString()}]++
+			}
+		}
+	})
+	return out
+}
+
+// kernelFunctions: the functions of the codec packages that the decoder can reach.
+func kernelFunctions(p *Prog) []*ssa.Function {
+	_, dec := wireSides(p)
+	var out []*ssa.Function
+	for _, f := range p.ModFns {
+		rel := p.Rel(f)
+		if (rel != "transform" && rel != "entropy" && rel != "internal") || !dec[f] || f.Parent() != nil {
+			continue
+		}
+		out = append(out, f)
+	}
+	return out
+}
+
 func loadWireSpec(path string) *wireSpec {
 	b, err := os.ReadFile(path)
 	if err != nil {
@@ -587,6 +751,39 @@ func ruleWire(p *Prog, r *RuleResult) {
 		}
 		r.fail(key, "-", fmt.Sprintf("constant table %s.%s of bitstream format 6 is gone (no literal table with its content exists)", wt.Pkg, wt.Name))
 	}
+	n += checkNameTests(p, r, spec)
+	// literal shift / mask / multiplier constants of the codec kernels the decoder reaches (lower bounds per function;
+	// a function that no longer exists under its name is skipped, not alarmed)
+	byName := map[string]*ssa.Function{}
+	for _, f := range p.ModFns {
+		byName[p.FnName(f)] = f
+	}
+	nk, nskip := 0, 0
+	for _, wk := range spec.Kernels {
+		f := byName[wk.Fn]
+		if f == nil {
+			nskip++
+			continue
+		}
+		m := kernelCensus(f)
+		okAll := true
+		for _, e := range wk.Entries {
+			n++
+			nk++
+			if m[[2]string{e.Op, e.Value}] < e.Count {
+				okAll = false
+				r.fail(fmt.Sprintf("kernel.%s#%s.%s", wk.Fn, e.Op, e.Value), p.Pos(f.Pos()), fmt.Sprintf("%s uses the literal %s in operation %s %d time(s); bitstream format 6 has %d: a shift, mask or multiplier of a codec kernel that the decoder runs was changed (encoder and decoder drift together, reference streams decode differently)", wk.Fn, e.Value, e.Op, m[[2]string{e.Op, e.Value}], e.Count))
+			}
+		}
+		if okAll {
+			r.Obligations += len(wk.Entries)
+			r.Discharged += len(wk.Entries)
+			r.Instances = append(r.Instances, Instance{fmt.Sprintf("kernel %s: %d literal shift/mask/multiplier constants unchanged", wk.Fn, len(wk.Entries)), p.Pos(f.Pos()), "ok"})
+		}
+	}
+	if nskip > 0 {
+		r.note("%d kernel function(s) of the frozen table no longer exist under their name: their literal constants are NOT DECIDED on this tree", nskip)
+	}
 	curCmps := constComparisons(p)
 	for _, wc := range spec.Cmps {
 		if byPkg[wc.Pkg][wc.Name] == nil {
@@ -618,4 +815,41 @@ func ruleWire(p *Prog, r *RuleResult) {
 		}
 	}
 	r.floor(100, n, "frozen wire entries")
+}
+
+// checkNameTests: tests of a string against a codec name of format 6 form the same multiset per package as in the
+// frozen table (a name added to or removed from a variant-selection list, or a change of the kind of test, changes
+// which codec flavour both sides pick).
+func checkNameTests(p *Prog, r *RuleResult, spec *wireSpec) int {
+	n := 0
+	frozenNames := map[string]bool{}
+	for _, e := range spec.NameTests {
+		frozenNames[e.Value] = true
+	}
+	curNT := nameTests(p, frozenNames)
+	seenNT := map[[3]string]bool{}
+	for _, e := range spec.NameTests {
+		n++
+		k3 := [3]string{e.Pkg, e.Kind, e.Value}
+		seenNT[k3] = true
+		key := fmt.Sprintf("nametest.%s#%s.%s", e.Pkg, e.Kind, e.Value)
+		if curNT[k3] == e.Count {
+			r.ok(fmt.Sprintf("%s x%d", key, e.Count), "-")
+		} else {
+			r.fail(key, "-", fmt.Sprintf("package %s tests a string against the codec name %q (%s) %d time(s); bitstream format 6 has %d: a variant-selection test was added, removed or changed in kind, so both sides pick a different codec flavour than the reference for some names", e.Pkg, e.Value, e.Kind, curNT[k3], e.Count))
+		}
+	}
+	for k3, c := range curNT {
+		if !seenNT[k3] && c > 0 {
+			n++
+			r.fail(fmt.Sprintf("nametest.%s#%s.%s", k3[0], k3[1], k3[2]), "-", fmt.Sprintf("package %s now tests a string against the format-6 codec name %q (%s) %d time(s); the reference has no such test: a codec name was added to a variant-selection list", k3[0], k3[2], k3[1], c))
+		}
+	}
+	return n
+}
+
+func ruleNameSet(p *Prog, r *RuleResult) {
+	spec := loadWireSpec(filepath.Join(*flagVerif, "spec", "format6.json"))
+	n := checkNameTests(p, r, spec)
+	r.floor(20, n, "frozen codec-name tests")
 }
